@@ -96,6 +96,9 @@ pub static PERTURB_US: AtomicU64 = AtomicU64::new(0);
 static PRNG: AtomicU64 = AtomicU64::new(0x9E3779B97F4A7C15);
 /// every mapping created by a library mmap and still mapped: addr -> len
 pub static OWNED: Mutex<Vec<(u64, u64)>> = Mutex::new(Vec::new());
+/// mappings made by "somebody else" (the driver, standing in for the rest of the process) at addresses the library
+/// used to own: the library must neither map over them, write into them nor unmap them
+pub static FOREIGN: Mutex<Vec<(u64, u64)>> = Mutex::new(Vec::new());
 pub static LAST_ERRNO: AtomicI64 = AtomicI64::new(0);
 
 pub fn set_policy(p: Option<Policy>) {
@@ -207,6 +210,11 @@ pub unsafe extern "C" fn mmap(addr: *mut c_void, len: size_t, prot: c_int, flags
         _ => raw_mmap(hint, len, prot, flags, fd, off),
     };
     let failed = is_err(r);
+    // memory somebody else mapped (registered by the driver) that this request landed on top of: only MAP_FIXED does that
+    let clobbers = !failed && FOREIGN.lock().unwrap().iter().any(|&(b, l)| r < b + l && b < r + ((len as u64 + 0xfff) & !0xfff));
+    if clobbers {
+        N_FOREIGN.fetch_add(1, SeqCst);
+    }
     if !failed {
         OWNED.lock().unwrap().push((r, len as u64));
         watch::add_tramp(r, len);
@@ -223,12 +231,14 @@ pub unsafe extern "C" fn mmap(addr: *mut c_void, len: size_t, prot: c_int, flags
         QUIET_COUNT.fetch_add(1, SeqCst);
         if !failed {
             // still logged compactly: a rejected placement must be seen being unmapped
-            emit(json!({"ev":"Mmap","hint":a8(hint),"len":len,"prot":prot,"ret":a8(r),"ok":true,"how":how,"n":n,"name":format!("m{:x}", r),"lock":lock_state()}));
+            emit(json!({"ev":"Mmap","hint":a8(hint),"len":len,"prot":prot,"ret":a8(r),"ok":true,"how":how,"n":n,"name":format!("m{:x}", r),"lock":lock_state(),
+                "clobbers_foreign":clobbers,"fixed":(flags & libc::MAP_FIXED) != 0}));
         }
     } else {
         emit(json!({"ev":"Mmap","hint":a8(hint),"len":len,"prot":prot,
             "ret": if failed { json!("fail") } else { json!(a8(r)) }, "ok": !failed, "how":how,"n":n,
-            "name": if failed { String::new() } else { format!("m{:x}", r) }, "lock": lock_state()}));
+            "name": if failed { String::new() } else { format!("m{:x}", r) }, "lock": lock_state(),
+            "clobbers_foreign":clobbers,"fixed":(flags & libc::MAP_FIXED) != 0}));
     }
     if failed {
         set_errno(-(r as i64) as i32);
